@@ -145,7 +145,7 @@ def run(ctx):
         "the protocol model abstracts the Go runtime: channel operations are atomic steps, goroutine scheduling is "
         "arbitrary interleaving (no fairness); which worker takes a task is not distinguished (workers are counted); "
         "`Submit(nil)` and `Submit` after `Shutdown` are outside the domain",
-        "forced schedules: the harness polls for the model's predicted quiescent observable (deadline 2.5 s) and then "
+        "forced schedules: the harness polls for the model's predicted quiescent observable (deadline 6 s) and then "
         "watches a grace period; an event later than the grace period is seen on the following line of the history "
         "(observables are cumulative) or by the final `obs` (25 ms)",
         "the `in` channel capacity (2*NumCPU in New) is a parameter of the model; the harness sets it to 1..5 through the "
@@ -166,19 +166,19 @@ def run(ctx):
     thm = ("C15.conservation / exactly_once / running_le_workers / fifo / shutdown_after_all_done / panic_reported_once "
            "/ shutdown_returns (Props/C15.lean) hold for every reachable state of the model; on this forced schedule the "
            "real queue does not reach the quiescent state the model predicts")
-    ctx.diff(area="forced", driver="drv_c15", n={"quick": 7000, "thorough": 300000}, stateful=True,
+    ctx.diff(area="forced", driver="drv_c15", n={"quick": 7000, "thorough": 200000}, stateful=True,
              trivial=_trivial, tagger=_tag, timeout=1500, theorem=thm, what=what)
     # the same stream on a single P (cooperative scheduling: different interleavings of dispatcher, workers, submitter)
     if not ctx.replay:
         ctx.seed += 7777
-        ctx.diff(area="forced", driver="drv_c15", n={"quick": 2500, "thorough": 100000}, stateful=True,
+        ctx.diff(area="forced", driver="drv_c15", n={"quick": 2500, "thorough": 60000}, stateful=True,
                  trivial=_trivial, tagger=lambda l, o: "gomaxprocs1:" + _tag(l, o), timeout=1500, theorem=thm,
                  what=what + " [this stream ran with GOMAXPROCS=1]", extra_env={"GOMAXPROCS": "1"})
         ctx.seed -= 7777
     _tidy_replays(ctx)
     if ctx.replay:
         _replay_stress(ctx)
-    ctx.impl_oracle("stress", n={"quick": 480, "thorough": 12000}, label="random stress in child processes, event log "
+    ctx.impl_oracle("stress", n={"quick": 480, "thorough": 8000}, label="random stress in child processes, event log "
                     "checked: exactly once, Shutdown after all finished, running <= Workers, one worker => submission "
                     "order, every panic reported once, no hang, no crash", timeout=3000)
 
